@@ -159,6 +159,8 @@ mut('C09-try-pipef-lifts', 'C09', 'pipe/fork/function.go', "func (f try[A, B]) p
 mut('C09-partition-nil-on-error', 'C09', FK, "\t\tsel := func(x bool, err error) chan<- A {\n\t\t\tif x && err == nil {\n\t\t\t\treturn lout\n\t\t\t}\n\t\t\treturn rout\n\t\t}", "\t\tsel := func(x bool, err error) chan<- A {\n\t\t\tif err != nil {\n\t\t\t\treturn nil\n\t\t\t}\n\t\t\tif x {\n\t\t\t\treturn lout\n\t\t\t}\n\t\t\treturn rout\n\t\t}", 'a failing predicate parks the worker on a nil channel')
 mut('C06-filter-returns-on-error', 'C06', P, "\t\t\tif take, err := f.Apply(a); take && err == nil {\n\t\t\t\tselect {\n\t\t\t\tcase out <- a:\n\t\t\t\tcase <-ctx.Done():\n\t\t\t\t\treturn\n\t\t\t\t}\n\t\t\t}\n\t\t}\n\t}()\n\n\treturn out\n}\n\n// ForEach", "\t\t\ttake, err := f.Apply(a)\n\t\t\tif err != nil {\n\t\t\t\tselect {}\n\t\t\t}\n\t\t\tif take {\n\t\t\t\tselect {\n\t\t\t\tcase out <- a:\n\t\t\t\tcase <-ctx.Done():\n\t\t\t\t\treturn\n\t\t\t\t}\n\t\t\t}\n\t\t}\n\t}()\n\n\treturn out\n}\n\n// ForEach", 'Filter blocks forever when its predicate returns an error')
 mut('C14-map-global-scratch', 'C14', SQ, "func (seq fmap[A, B]) Value() B {\n\treturn seq.f(seq.Seq.Value())\n}", "var mapScratch any\n\nfunc (seq fmap[A, B]) Value() B {\n\tmapScratch = seq.f(seq.Seq.Value())\n\treturn mapScratch.(B)\n}", 'a package-level scratch variable: visible only when independent iterators are used from several goroutines')
+mut('C14-fromslice-long-block', 'C14', SQ, "\treturn &seqOf[T]{xs}\n}", "\tif len(xs) > 1024 {\n\t\txs = xs[:len(xs)-len(xs)%1024]\n\t}\n\treturn &seqOf[T]{xs}\n}", 'slices longer than a block lose their incomplete last block')
+mut('C18-remove-top-level-only-when-many', 'C18', SK, "\t\tfor level := 0; level < rank; level++ {\n\t\t\tif path[level].fingers[level] == v {", "\t\tfor level := 0; level < min(rank, 5); level++ {\n\t\t\tif path[level].fingers[level] == v {", 'fingers above level 4 keep pointing at the removed node (needs many keys)')
 
 EQUIVALENT = {'C02-no-container-check', 'C04-codec-get-skips-fmap', 'C06-throttle-data-no-ctx', 'C15-map-stale-key', 'C05-filter-or', 'C05-partition-swapped-capacity', 'C10-empty-counted-per-worker', 'C19-slice-cons-append', 'C04-setter-get-leaks'}
 
